@@ -263,7 +263,11 @@ impl Gen<'_> {
                     _ => format!("let other{g} = 2, {g} = 1;"),
                 };
                 if src.contains("other") {
-                    self.ghosts.push(format!("other{g}"));
+                    // (once: a name that a later entry has declared for real is no ghost any more)
+                    let n = format!("other{g}");
+                    if !self.ghosts.contains(&n) && !self.lexicals.contains(&n) {
+                        self.ghosts.push(n);
+                    }
                 }
                 (mk(src, budgeted, self.rng), "gdi-lexical-collides-with-global")
             }
